@@ -88,8 +88,7 @@ def execute(task, package_dir):
             summary["error"] = reference.error
             return summary
         if reference.status == "crash":
-            summary["violations"].append({"property": ID, "oracle": "crash", "step": reference.events,
-                                          "detail": {"traceback": (reference.error or "")[-2000:]}})
+            summary["violations"].append(common.crash_violation(ID, reference))
             summary["status"] = "violation"
             return summary
         jumped = box["saver"].jumped
